@@ -149,7 +149,15 @@ def rule_units(ctx):
     ctx.rule('C16.units', 'comparisons and +/- in the allocator never mix absolute addresses with relative indices or lengths')
     ci = ctx.repo.cls('sc3.synth._engine:ContiguousBlockAllocator')
     nx = nu = 0
-    for name in REACH:
+    # the frozen list plus whatever alloc/free reach through self-calls on today's tree (a new helper is analysed too)
+    reach = list(REACH)
+    for entry in ('alloc', 'free'):
+        e = ci.methods.get(entry)
+        if e is not None:
+            for g in U.self_closure(ctx.repo, ci, e).values():
+                if g.cls is ci and g.name not in reach:
+                    reach.append(g.name)
+    for name in reach:
         f = ci.methods.get(name)
         ctx.require(f is not None, 'C16.units', f'ContiguousBlockAllocator.{name} vanished')
         for kind, node, u, ok, why in Units(ctx, f).run():
@@ -159,7 +167,7 @@ def rule_units(ctx):
             else:
                 nu += 1
                 ctx.ob('C16.units', f'{f.fq}:{norm(node)}', ok, why, node, f.module)
-    ctx.require(nx >= 12 and nu >= 8, 'C16.units', f'only {nx} subscripts / {nu} comparisons analysed')
+    ctx.require(nx >= 6 and nu >= 4, 'C16.units', f'only {nx} subscripts / {nu} comparisons analysed')
     # reachability: reserve is not called by the library (noted, not alarmed)
     users = [fi.fq for fi in ctx.repo.functions.values() for c in U.calls(fi.node)
              if U.method_name(c) == 'reserve' and 'allocator' in norm(c.func.value).lower()]
@@ -228,9 +236,35 @@ def rule_free(ctx):
                     tname = t.targets[0].id
                 if tname and isinstance(t, ast.If) and norm(t.test) == f'{tname} is not None':
                     merges.append((nb_of.get(nb), nb, tname, t))
+                    if nb_of.get(nb) == '_find_previous':
+                        # the joined block replaces `block` before the next neighbour is looked up
+                        ctx.ob('C16.free', f'{f.fq}:merged-block-carried-on', any(norm(x) == f'{blk} = {tname}' for x in t.body),
+                               'after merging with the previous neighbour the joined block must become `block`: the second merge otherwise '
+                               'joins the stale block and registers a free block that overlaps the first result', t, mod)
+                # merge delegated to a helper: self.h(lo, hi) whose result must be carried on the same way
+                hc = [c for c in U.calls(t) if U.is_self_attr(c.func) and ci.methods.get(c.func.attr) is not None
+                      and any(U.method_name(c2) == 'join' for c2 in U.calls(ci.methods[c.func.attr].node))]
+                for c in hc:
+                    h = ci.methods[c.func.attr]
+                    hs = full(h.node)
+                    lo_p, hi_p = h.params[1], h.params[2]
+                    tn = next((norm(x.targets[0]) for x in walk_local(h.node) if isinstance(x, ast.Assign) and '.join(' in norm(x.value)), None)
+                    body_ok = tn is not None and f'self._array[{tn}.start - self.addr_offset] = {tn}' in hs and \
+                        f'self._remove_from_freed({lo_p})' in hs and f'self._remove_from_freed({hi_p})' in hs and \
+                        f'if self.top > {tn}.start: self._add_to_freed({tn})' in hs and hs.rstrip().endswith(f'return {tn}')
+                    carried = isinstance(t, ast.Assign) and norm(t.targets[0]) == blk
+                    merges.append((nb_of.get(nb), nb, tn, None))
+                    ctx.ob('C16.free', f'{f.fq}:merge-with-{"prev" if nb_of.get(nb) == "_find_previous" else "next"}', body_ok,
+                           f'merge helper {h.name} must install the joined block, drop both free-list entries, list the joined block and return it',
+                           h.node, mod)
+                    if nb_of.get(nb) == '_find_previous':
+                        ctx.ob('C16.free', f'{f.fq}:merged-block-carried-on', carried,
+                               f'the result of {norm(c)} must be assigned to `{blk}`: the second merge otherwise joins the stale block', t, mod)
         ctx.ob('C16.free', f'{f.fq}:two-merges', [m[0] for m in merges] == ['_find_previous', '_find_next'],
                'previous and next neighbours are both considered, in that order', g, mod)
         for i, (which, nb, T, mg) in enumerate(merges):
+            if mg is None:
+                continue          # helper form, judged above
             src = ' ; '.join(norm(s) for s in mg.body)
             other = 'prev' if which == '_find_previous' else 'next'
             gone = blk if which == '_find_previous' else nb
@@ -380,6 +414,8 @@ def run(ctx):
 
 
 MUTANTS = [
+    dict(rule='C16.free', name='joined block not carried on to the second merge', file='sc3/synth/_engine.py',
+         old="                    if self.top > tmp.start: self._add_to_freed(tmp)\n                    block = tmp\n", new="                    if self.top > tmp.start: self._add_to_freed(tmp)\n"),
     dict(rule='C16.free', name='(fix reverted) free indexes the slot array with an unchecked address', file='sc3/synth/_engine.py',
          old="        if not 0 <= addr - self.addr_offset < self.size:\n            return  # Not an address of this allocator.\n", new=""),
     dict(rule='C16.part', name='login count stored after the allocators are rebuilt (seed C16-c)', file='sc3/synth/_serverstatus.py',
@@ -414,5 +450,9 @@ MUTANTS = [
 REPAIRS = []
 
 EQUIV = [
+    dict(name='the two merges factored into a helper whose result is carried on', file='sc3/synth/_engine.py',
+         edits=[('sc3/synth/_engine.py', '                tmp = prev.join(block)\n                if tmp is not None:\n                    # // if block is the last one, reduce the top\n                    if block.start == self.top: self.top = tmp.start\n                    self._array[tmp.start - self.addr_offset] = tmp\n                    self._array[block.start - self.addr_offset] = None\n                    self._remove_from_freed(prev)\n                    self._remove_from_freed(block)\n                    if self.top > tmp.start: self._add_to_freed(tmp)\n                    block = tmp\n', "                block = self._merge(prev, block)\n"),
+                ('sc3/synth/_engine.py', '                tmp = next.join(block)\n                if tmp is not None:\n                    # // if next is the last one, reduce the top\n                    if next.start == self.top: self.top = tmp.start\n                    self._array[tmp.start - self.addr_offset] = tmp\n                    self._array[next.start - self.addr_offset] = None\n                    self._remove_from_freed(next)\n                    self._remove_from_freed(block)\n                    if self.top > tmp.start: self._add_to_freed(tmp)\n', "                self._merge(block, next)\n"),
+                ('sc3/synth/_engine.py', "                self._merge(block, next)\n\n    def blocks(self):", '                self._merge(block, next)\n\n    def _merge(self, low, high):\n        tmp = low.join(high)\n        if tmp is None:\n            return high\n        if high.start == self.top: self.top = tmp.start\n        self._array[tmp.start - self.addr_offset] = tmp\n        self._array[high.start - self.addr_offset] = None\n        self._remove_from_freed(low)\n        self._remove_from_freed(high)\n        if self.top > tmp.start: self._add_to_freed(tmp)\n        return tmp\n\n    def blocks(self):')]),
     dict(name='rename local of free', file='sc3/synth/_engine.py', start='        # // this \'if\' prevents an error if a Buffer object is freed twice', end='    def blocks(self):', rename=[('tmp', 'joined')]),
 ]
